@@ -20,7 +20,7 @@ ID = "C05"
 LEVEL = "model_checking"
 
 NLEAF = 4
-HEADER = "from guppylang.std.option import Option, some, nothing\n" + "".join(f'''
+HEADER = "from guppylang.std.option import Option, some, nothing\nfrom collections.abc import Callable\n" + "".join(f'''
 @guppy
 def f{i}(v: int) -> int:
     result("f{i}", v)
@@ -48,7 +48,36 @@ def opt(v: int) -> Option[int]:
     if v > 1:
         return nothing()
     return some(v)
-'''
+
+@guppy
+def idf(v: int) -> int:
+    result("idf", v)
+    return v
+
+@guppy.struct
+class Acc:
+    base: int
+
+    @guppy
+    def add(self: "Acc", v: int) -> int:
+        result("add", self.base * 10 + v)
+        return self.base + v
+
+@guppy
+def mkacc(v: int) -> Acc:
+    result("mkacc", v)
+    return Acc(v)
+''' + "".join(f'''
+@guppy
+def pk{i}(v: int) -> Callable[[int], int]:
+    result("pk{i}", v)
+    return idf
+
+@guppy
+def pk2_{i}(v: int) -> Callable[[int, int], int]:
+    result("pk2_{i}", v)
+    return h2
+''' for i in range(NLEAF))
 
 # expression templates use {L} for an int leaf and {B} for a bool leaf slot; numbering is
 # assigned afterwards in textual order.
@@ -112,6 +141,14 @@ def _number(text):
             out.append(f"f{k}(p{k})")
             k += 1
             i += 3
+        elif text.startswith("{K}", i):
+            out.append(f"pk{k}(p{k})")
+            k += 1
+            i += 3
+        elif text.startswith("{K2}", i):
+            out.append(f"pk2_{k}(p{k})")
+            k += 1
+            i += 4
         elif text.startswith("{B:", i):
             j = text.index("}", i)
             kind = text[i + 3:j]
@@ -139,6 +176,11 @@ CONTEXTS_E = [
     ("effects-around-subscript", ['result("before", 1)', "r = array(10, 20)[{X}]", 'result("after", 2)', 'result("out", r)']),
     ("effects-around-array-write", ["xs = array(10, 20)", 'result("before", 1)', "xs[{X}] = 5", 'result("after", 2)', 'result("a0", xs[0])']),
     ("effects-around-unwrap", ["o = opt({X})", 'result("before", 1)', "r = o.unwrap()", 'result("after", 2)', 'result("out", r)']),
+    # every KIND of reporting op next to the others: array-valued results (int / bool / float elements), bool,
+    # float and nat results
+    ("array-results", ['result("before", 1)', 'result("arr", array({X}, 2))', 'result("mid", True)',
+                       'result("barr", array({X} > 0, False))', 'result("farr", array(1.5, 2.5))', 'result("after", 2.5)',
+                       'result("nat", nat(3))']),
 ]
 CONTEXTS_B = [
     ("if-cond", ["if {X}:", '    result("then", 1)', "else:", '    result("else", 0)']),
@@ -183,6 +225,20 @@ def programs(tier):
         ("binop,walrus,", "(({L} + (w := {L})) + w)"),
         ("call-args,walrus,", "h2({L}, (w := {L}))"),
         ("binop,ifexp,and,", "({L} + ({L} if ({B:g} and {B:g}) else 7))"),
+        # calls whose CALLEE is itself an effectful expression (indirect calls), method calls on an
+        # effectful receiver, struct construction
+        ("indirect-call,", "{K}({L})"),
+        ("indirect-call,binop,", "{K}(({L} + {L}))"),
+        ("indirect-call,binop,", "({L} + {K}({L}))"),
+        ("indirect-call,call-args,", "h2({L}, {K}({L}))"),
+        ("indirect-call,indirect-call,", "{K}({K}({L}))"),
+        ("indirect-call2,", "{K2}({L}, {L})"),
+        ("indirect-call2,binop,", "({L} + {K2}({L}, {L}))"),
+        ("method-call,", "mkacc({L}).add({L})"),
+        ("method-call,binop,", "({L} + mkacc({L}).add({L}))"),
+        ("method-call,call-args,", "h2(mkacc({L}).add({L}), {L})"),
+        ("struct-construction,", "Acc({L}).add({L})"),
+        ("struct-construction,binop,", "(Acc({L}).base + Acc({L}).base)"),
     ]
     for kinds, t in extra_e:
         for cn, lines in CONTEXTS_E:
